@@ -1012,8 +1012,11 @@ class Staircase(Pbox):
         args:
             x (array-like): x values
         """
-        lo_ind = find_nearest(self.right, x)
-        hi_ind = find_nearest(self.left, x)
+        # index of the last step whose bound does not exceed x. The bounds are non-decreasing and may
+        # contain flat runs (a staircase), where the nearest *value* does not identify the step.
+        last = len(Params.p_values) - 1
+        lo_ind = np.clip(np.searchsorted(self.right, x, side="right") - 1, 0, last)
+        hi_ind = np.clip(np.searchsorted(self.left, x, side="right") - 1, 0, last)
         return I(lo=Params.p_values[lo_ind], hi=Params.p_values[hi_ind])
 
     def alpha_cut(self, alpha=0.5):
